@@ -205,7 +205,7 @@ def replay_enumeration(ctx, alphabet, L, label, variants):
         return True
 
     res = ctx.tlc("Tokenizer", cfg(alphabet, L, emit=True), what="MC_Tokenizer[%s,L=%d]" % (label, L),
-                  stream_to=handle, timeout=3600)
+                  stream_to=handle, timeout=3600, extra=("-maxSetSize", "50000000"))
     if res.violated:
         raise Machinery("Tokenizer.tla violates its own Level-A invariant %s: %s" % (res.violated, res.out[-1200:]))
     expect = sum(len(alphabet) ** n for n in range(L + 1))
